@@ -49,6 +49,8 @@ def blocks(tier, seed):
         # amplitude vectors that do not complete the highest mode (valid input)
         out.append({"cls": cls, "n": n, "R": RADII[(seed + n) % 3], "centre": "generic", "tier": tier, "mode": "first-order"})
         out.append({"cls": cls, "n": n, "R": RADII[(seed + n + 1) % 3], "centre": "generic", "tier": tier, "mode": "integral"})
+    # histories across classes: droplets of two classes with the SAME number of amplitudes observed one after the other (fresh fork)
+    out.append({"cls": "3d", "n": 0, "mode": "class-sequence", "tier": tier})
     for cls in ("2d", "3d", "axisym"):
         out.append({"cls": cls, "mode": "mutation", "n": {"2d": 4, "3d": 8, "axisym": 3}[cls], "tier": tier})
     big = (("2d", 8), ("3d", 24), ("axisym", 4)) if tier != "thorough" else (("2d", 8), ("2d", 12), ("3d", 24), ("3d", 35), ("axisym", 4), ("axisym", 6))
@@ -64,6 +66,11 @@ def blocks(tier, seed):
 
 def cases(block):
     cls, n = block["cls"], block["n"]
+    if block["mode"] == "class-sequence":
+        for n_ in (2, 3, 4, 6):
+            for a, b in itertools.permutations(("2d", "3d", "axisym"), 2):
+                yield {"mode": "class-sequence", "cls": b, "first_cls": a, "n": n_}
+        return
     if block["mode"] == "mutation":
         # operation sequences on ONE droplet object: read everything, change parameters, read again
         pats = [[0.0] * n, [0.15] + [0.0] * (n - 1), [0.0] * (n - 1) + [-0.2], [0.1, -0.1] + [0.05] * (n - 2)]
@@ -220,7 +227,29 @@ def run_mutation(case, ctx):
     ctx.count("mutation-sequences")
 
 
+def run_class_sequence(case, ctx):
+    from mcx import core
+
+    n = case["n"]
+    amps = [0.0, 0.12, -0.07, 0.05, 0.0, 0.03][:n]
+
+    def obs(cls):
+        c = [0.3, -0.2] if cls == "2d" else ([0.0, 0.0, 0.4] if cls == "axisym" else [0.3, -0.2, 0.4])
+        o = observe(cls, make(cls, c, 1.3, amps))
+        return {k: np.asarray(v, float) for k, v in o.items() if k in ("distance", "curvature", "position", "volume_approx")}
+
+    a, b = case["first_cls"], case["cls"]
+    alone = core.in_fork(lambda: obs(b))
+    seq = core.in_fork(lambda: (obs(a), obs(b))[1])
+    ctx.op(3)
+    ctx.count("class-sequences")
+    for k in alone:
+        ctx.check("C13.state-independent", bool(np.array_equal(alone[k], seq[k])), {"quantity": k, "after_class": a, "alone": alone[k].ravel()[:3], "in_sequence": seq[k].ravel()[:3]}, {"cls": b, "mode": "class-sequence"})
+
+
 def run_case(case, ctx):
+    if case["mode"] == "class-sequence":
+        return run_class_sequence(case, ctx)
     if case["mode"] == "mutation":
         return run_mutation(case, ctx)
     cls, n, R, eps = case["cls"], case["n"], case["R"], case["eps"]
@@ -420,5 +449,5 @@ def run_case(case, ctx):
 
 
 def expected_positive(tier):
-    return ["C13.shape-function", "C13.position", "C13.triangulation", "C13.curvature-1st", "C13.volume-1st", "C13.volume", "C13.surface", "C13.sphere-limit", "C13.argument-form", "polar-angle-omitted-with-zonal-mode",
+    return ["C13.shape-function", "C13.position", "C13.triangulation", "C13.curvature-1st", "C13.volume-1st", "C13.volume", "C13.surface", "C13.sphere-limit", "C13.argument-form", "polar-angle-omitted-with-zonal-mode", "class-sequences",
             "non-zero-amplitudes", "several-simultaneous-modes", "C13.state-independent", "mutation-sequences"]
